@@ -7,6 +7,7 @@ import s_framing
 import s_sender
 import s_conc
 import s_dispatch
+import s_fault
 
 KERNEL = "Lean 4.33.0 kernel; axioms limited to propext, Classical.choice, Quot.sound (audited with #print axioms on every run)"
 HARNESS = "the correspondence harness (generators, canonicalisation) in /verif/harness"
@@ -85,15 +86,17 @@ PROPS = {
                 "the Metadata closures with scripted adapters; non-trivial = distinct (method, token list)",
     },
     "C09": {
-        "lean": ["AriVerif.Props.C09"],
+        "lean": ["AriVerif.Props.C09", "AriVerif.Props.C09S"],
         "gen": [],
-        "streams": [s_wire.stream_requests, s_wire.stream_meta],
+        "streams": [s_wire.stream_requests, s_wire.stream_meta, s_dispatch.stream],
         "trusted": [KERNEL, HARNESS, "request layouts hand-written (Requests.schemas), tied by the malformed-stream differential",
                     "modelled, not verified: the remoting_exception_on_parse decorator (every exception inside read_* becomes the "
                     "protocol error naming the method) — compared on every malformed input"],
         "assumptions": ["DESIGN I-2 (mode = first character), I-3 (a dangling S|k at the end of a map is tolerated by the code)"],
         "rule": "per method: truncation at every position, every type marker replaced, every typed slot corrupted, token deletion / "
-                "duplication, appended tokens, random token lists; non-trivial = distinct (method, token list)",
+                "duplication, appended tokens, random token lists; non-trivial = distinct (method, token list); server part: line "
+                "sequences with malformed requests at random positions on both server kinds, with and without exception handler "
+                "(returning True/False), followed by well-formed requests",
     },
     "C07": {
         "lean": ["AriVerif.Props.C07"],
@@ -154,5 +157,35 @@ PROPS = {
         "assumptions": ["messages are written by the single writer thread only"],
         "rule": "Data-server scenarios with 0-2 adapter-owned threads and events submitted from inside subscribe/unsubscribe, all schedules "
                 "sampled; written lines compared with the enqueue order; non-trivial = scenario with pipelined requests",
+    },
+    "C10": {
+        "lean": ["AriVerif.Props.C10"],
+        "gen": ["Version"],
+        "streams": [s_dispatch.stream],
+        "trusted": [KERNEL, HARNESS, "Dispatch.lean (classify / act) is hand-written and tied by the reader-dispatch differential only: the real "
+                    "Server.on_received_request of both kinds is run in-process with recording stubs (request manager, executor, socket, "
+                    "subscription manager, adapter, exception handler)",
+                    "that every adapter method other than initialize / set_listener runs in a pool task created by a submit / dataReq "
+                    "action (hence after it) is C18's co-simulation"],
+        "assumptions": ["DESIGN I-1: a malformed or refused first init request consumes the init slot (the repository's tests fix this); "
+                        "c10_work_after_init is stated for 'init slot consumed', c10_initialize_only_first says when initialize actually ran",
+                        "DESIGN I-7: request methods that collide with private attributes (INIT, REQUEST_MANAGER_STARTED) are outside the domain"],
+        "rule": "line sequences of 1-9 lines per connection: init request at zero, one or several random positions (all version strings, "
+                "malformed variants), requests of the kind's own methods (a quarter malformed), of the other kind's methods, unknown methods, blank / "
+                "garbage lines, CLOSE lines (id 0 / other, well- and ill-formed), exception handler absent / True / False, adapter initialize "
+                "ok / raising; non-trivial = distinct (kind, handler, line sequence)",
+    },
+    "C20": {
+        "lean": ["AriVerif.Props.C20"],
+        "gen": [],
+        "streams": [s_fault.stream, s_dispatch.stream],
+        "trusted": [KERNEL, HARNESS, "the scheduler shim (harness/shim.py): Lock/RLock, Queue, Event, Thread, ThreadPoolExecutor, scripted socket with fault injection, virtual clock",
+                    "os._exit is substituted by the shim (recorded, thread unwound); real process exit and real socket shutdown semantics are the OS's",
+                    "Dispatch.lean's close handling tied by the reader-dispatch differential; readerFault / writerFault tied by the fault-injection co-simulation"],
+        "assumptions": ["the close request is the last line the Proxy Adapter sends (lines after it would hit a shut-down pool, DESIGN I-7)",
+                        "a blocked recv on a socket closed by another thread raises OSError (the shim's choice; platform-dependent in reality)"],
+        "rule": "fault injection on both server kinds under the scheduler: EOF / reset before init, mid-line, between requests, after all; failure "
+                "of write #1..#8; close request id 0 / 7 with agreed versions {none, 1.8.2, 1.8.3, 1.9.1}; close(); close() from the application "
+                "thread; handler absent / True / False / None; pool 1-3 with pool tasks in flight; random schedules; non-trivial = distinct scenario",
     },
 }
